@@ -169,6 +169,9 @@ def c09(ctx):
     for ln in lines:
         if len(ln["layers"]) >= 2:
             ctx.nontrivial.add((tuple((l["k"], l["idx"]) for l in ln["layers"]), tuple(ln["e"])))
+    # random real isometries: Solver contract (forward / link poses, answers map back, ordering, J6) behind stacks
+    ev, viols = solver_trace(ctx, "C09", 3 if ctx.quick else 10)
+    solver_report(ctx, ev, viols, "C09")
     ctx.exhaustive = True
     return finish(ctx, rule="every stack of Tool/Frame/Base layers up to depth MaxDepth over the lattice isometries Isos "
                   "(plus LinearAxis/Gantry mounts) x leaf configurations, generated by TLC one Wrap action at a time with the "
@@ -202,6 +205,13 @@ def solver_report(ctx, ev, viols, pid):
     for v in viols:
         e = ev[v["l"] - 1]
         for clause in v["clause"]:
+            # C09: "each entry point keeps its own contract through the stack": the soundness / ordering / 5-DOF clauses
+            # observed behind a tool/base/frame stack are C09's as well
+            if pid == "C09" and e.get("stack") not in (None, "bare") and not e.get("pgram") and \
+                    clause.split(":")[0] in ("C01", "C04", "C06") and \
+                    not (clause == "C04:previous-not-first" and e.get("pose_class") in ("on-j1-axis", "stretched")):
+                # (previous-not-first at shoulder / elbow singular poses is the leaf solver's known finding, listed under C04)
+                clause = "C09:through-stack:" + clause
             if not clause.startswith(pid + ":"):
                 continue
             small = {k: e.get(k) for k in ("entry", "dof", "pose_class", "prev_class", "limits_class", "stack", "geom",
